@@ -197,12 +197,18 @@ Deterministic(R, cls, lim, off) ==
 (*    may pick any rows.  Explained iff the observation has the right      *)
 (*    length, its rows match distinct rows of the input and no adjacent    *)
 (*    pair is inverted under CmpNullEq.  Needs a NULL among the key values.*)
+(*  "index_scan_drops_null_keys"  a single-key ORDER BY on a column with a  *)
+(*    secondary index (no WHERE) is answered by walking the index, which   *)
+(*    holds no entry for a NULL key: rows whose key is NULL are lost.      *)
+(*    (q.ix says that the query runs against the indexed copy of the       *)
+(*    tables; that field exists only on the observations fed back by the   *)
+(*    check, never on generated queries.)                                  *)
 (*  "distinct_window_twice"  SELECT DISTINCT with LIMIT/OFFSET cuts the    *)
 (*    window out of the sorted rows BEFORE duplicates are removed, removes *)
 (*    the duplicates and cuts the same window again.                       *)
 (***************************************************************************)
-DevSeq == << "aggregate_keys_ignored", "distinct_window_twice", "expr_columns_dropped", "null_equals_all",
-             "ordinal_ignored", "setop_first_column", "unprojected_ignored" >>
+DevSeq == << "aggregate_keys_ignored", "distinct_window_twice", "expr_columns_dropped", "index_scan_drops_null_keys",
+             "null_equals_all", "ordinal_ignored", "setop_first_column", "unprojected_ignored" >>
 DevNames == SeqToSet(DevSeq)
 PlainColumn(q, e) == IF q.src = "group" THEN e = "c1" ELSE e \in Cols
 DeadKeys(q, devs) == {i \in 1..Len(q.keys) :
@@ -254,11 +260,14 @@ Applicable(q, devs) ==
     /\ ("setop_first_column" \in devs => q.src = "union" /\ Len(q.keys) > 0)
     /\ ("distinct_window_twice" \in devs => q.src = "plain" /\ q.dist /\ (q.lim # NoLim \/ q.off # NoLim))
     /\ ("expr_columns_dropped" \in devs => \E i \in 1..Len(q.sel) : ~PlainColumn(q, q.sel[i]))
+    /\ ("index_scan_drops_null_keys" \in devs => q.ix /\ q.src = "plain" /\ q.w = "none" /\ Len(q.keys) = 1
+                                                   /\ q.keys[1].k = "e" /\ q.keys[1].x = "c2")
 \* observed is what the reference semantics modified by exactly the deviations devs allows
 DevAdmissible(obs, q, devs) ==
     LET keys == LiveKeys(q, devs)
         dirs == Dirs(keys)
-        P == ProjectionS(q, keys, OutSel(q, devs))
+        P0 == ProjectionS(q, keys, OutSel(q, devs))
+        P == IF "index_scan_drops_null_keys" \in devs /\ Len(keys) > 0 THEN SelectSeqIdx(P0, LAMBDA i : P0[i].k[1] # N, 1) ELSE P0
         nulleq == "null_equals_all" \in devs
     IN /\ Applicable(q, devs)
        /\ IF "distinct_window_twice" \in devs
